@@ -21,8 +21,11 @@
 (*    value: TLC checks both on every generated formula.                   *)
 (*                                                                         *)
 (* Tokens are strings.  Operand tokens are spelled as in Excel ("2",       *)
-(* "0.5", "1E2", "TRUE", "#N/A"), text literals are named ("T1" ..) and    *)
-(* cell references ("A1", "B1") are bound by an environment.  Prefix       *)
+(* "0.5", "1E2", "TRUE", "#N/A"), text literals are named ("T1" ..), so    *)
+(* are number literals whose spelling is the point ("N1" ..: leading or    *)
+(* trailing zeros, no integer part; the wrapper gives their characters and *)
+(* their value is what ExcelValues!ParseNum reads from them), and cell     *)
+(* references ("A1", "B1") are bound by an environment.  Prefix            *)
 (* minus/plus are the tokens "u-"/"u+" (rendered "-"/"+"): the generator   *)
 (* knows which one it means, the implementation has to find out.           *)
 (***************************************************************************)
@@ -37,6 +40,9 @@ CONSTANTS Operands,   \* set of operand tokens the generator may use
           MaxLen,     \* bound on the number of tokens
           MinExport,  \* export only formulas of at least this many tokens
           Lit,        \* [literal token -> value]
+          LitDev,     \* [some literal tokens -> value]: what these literals denote under a
+                      \* known deviation of the implementation (only used to tell that
+                      \* deviation from any other discrepancy, see Deviant below)
           Refs,       \* set of reference tokens
           Envs        \* sequence of environments [reference token -> value]
 
@@ -46,7 +52,9 @@ VARIABLES toks,       \* the token string so far
           out         \* <<>> while the formula is incomplete, else what the
                       \* reference semantics says about it: <<tree, spans of
                       \* sub-expressions, value under each environment,
-                      \* end of parse, magnitude scale under each environment>>
+                      \* end of parse, magnitude scale under each environment,
+                      \* value under each environment with the literals of LitDev
+                      \* read the deviant way (<<>> when the formula has none)>>
                       \* (a function of toks, kept in the state to be computed once)
 vars == <<toks, stk, out>>
 
@@ -243,17 +251,18 @@ SumFrom(vals, p, acc) ==
 RECURSIVE MaxScale(_, _)
 MaxScale(vals, p) == IF p > Len(vals) THEN 0 ELSE Max2(vals[p][3], MaxScale(vals, p + 1))
 
-RECURSIVE Ev(_, _)
-Ev(x, env) ==
+\* lit: the meaning of the literal tokens (Lit, or Lit overridden by LitDev)
+RECURSIVE Ev(_, _, _)
+Ev(x, env, lit) ==
   CASE x[1] = "lit" ->
-         LET v == IF x[2] \in Refs THEN env[x[2]] ELSE Lit[x[2]] IN <<v, Dyadic(v), Mag(v)>>
+         LET v == IF x[2] \in Refs THEN env[x[2]] ELSE lit[x[2]] IN <<v, Dyadic(v), Mag(v)>>
     [] x[1] = "un" ->
-         LET a == Ev(x[3], env)
+         LET a == Ev(x[3], env, lit)
              v == Apply1(x[2], a[1])
          IN  <<v, a[2] /\ Dyadic(v), Max2(a[3], Mag(v))>>
     [] x[1] = "bin" ->
-         LET a == Ev(x[3], env)
-             b == Ev(x[4], env)
+         LET a == Ev(x[3], env, lit)
+             b == Ev(x[4], env, lit)
              op == x[2]
              inexact == (IsNumV(a[1]) /\ ~a[2]) \/ (IsNumV(b[1]) /\ ~b[2])
              open == /\ inexact /\ ~IsErr(a[1]) /\ ~IsErr(b[1])
@@ -263,7 +272,7 @@ Ev(x, env) ==
              v == IF open THEN U("any") ELSE Apply(op, a[1], b[1])
          IN  <<v, a[2] /\ b[2] /\ Dyadic(v), Max2(Max2(a[3], b[3]), Mag(v))>>
     [] x[1] = "call" /\ x[2] = "SUM(" ->
-         LET vals == [q \in 1..Len(x[3]) |-> Ev(x[3][q], env)]
+         LET vals == [q \in 1..Len(x[3]) |-> Ev(x[3][q], env, lit)]
              v == SumFrom([q \in 1..Len(vals) |-> vals[q][1]], 1, Zero)
          IN  <<v, (\A q \in 1..Len(vals) : vals[q][2]) /\ Dyadic(v),
                Max2(MaxScale(vals, 1), Mag(v))>>
@@ -271,27 +280,39 @@ Ev(x, env) ==
          \* IF(condition, then, else): only the chosen branch counts.
          \* Left open: a text or inexact condition, the two-argument form,
          \* a blank reference coming out of a branch.
-         LET c == Ev(x[3][1], env)
+         LET c == Ev(x[3][1], env, lit)
              cv == c[1]
          IN  IF IsErr(cv) THEN <<cv, TRUE, 0>>
              ELSE IF IsU(cv) \/ IsText(cv) \/ ~c[2] \/ Len(x[3]) # 3 THEN <<U("any"), TRUE, 0>>
              ELSE LET truth == IF IsBlank(cv) THEN FALSE ELSE cv[2] # 0
-                      br == Ev(x[3][IF truth THEN 2 ELSE 3], env)
+                      br == Ev(x[3][IF truth THEN 2 ELSE 3], env, lit)
                   IN  IF IsBlank(br[1]) THEN <<U("any"), TRUE, 0>> ELSE br
 
 \* a formula that evaluates to a blank cell shows 0
 Shown(v) == IF IsBlank(v) THEN Zero ELSE v
-TreeValue(x, env) == Shown(Ev(x, env)[1])
+TreeValue(x, env) == Shown(Ev(x, env, Lit)[1])
 Value(t, env) == TreeValue(Tree(t), env)
 
 --------------------------------------------------------------------------
 (* the machine: the generator, with the reference semantics attached to    *)
 (* every complete formula                                                  *)
+\* A known deviation of the implementation (it has one representation for
+\* the text "#N/A" and the error #N/A) is described as another reading of
+\* some literals: LitDev.  The reference value never depends on it; the
+\* deviant value is exported next to it so that the harness can attribute a
+\* discrepancy to the deviation exactly when the implementation returns
+\* the deviant value of that very formula.
+LitDeviant == [x \in DOMAIN Lit |-> IF x \in DOMAIN LitDev THEN LitDev[x] ELSE Lit[x]]
+Deviant(t) == \E p \in 1..Len(t) : t[p] \in DOMAIN LitDev
+
 Meaning(t, s) == IF IsComplete(t, s)
                  THEN LET pr == Parse(t)
-                          ev == [e \in 1..Len(Envs) |-> Ev(pr.t, Envs[e])]
+                          ev == [e \in 1..Len(Envs) |-> Ev(pr.t, Envs[e], Lit)]
                       IN  <<pr.t, pr.sp, [e \in 1..Len(Envs) |-> Shown(ev[e][1])], pr.n,
-                            [e \in 1..Len(Envs) |-> ev[e][3]]>>
+                            [e \in 1..Len(Envs) |-> ev[e][3]],
+                            IF Deviant(t)
+                            THEN [e \in 1..Len(Envs) |-> Shown(Ev(pr.t, Envs[e], LitDeviant)[1])]
+                            ELSE <<>>>>
                  ELSE <<>>
 
 Init == toks = <<>> /\ stk = <<>> /\ out = <<>>
@@ -323,6 +344,7 @@ ValueTotal ==
 (* export: one JSON line per complete formula *)
 Export ==
   IF Complete /\ Len(toks) >= MinExport
-  THEN PrintT(ToJson([toks |-> toks, sp |-> out[2], vals |-> out[3], scale |-> out[5]]))
+  THEN PrintT(ToJson([toks |-> toks, sp |-> out[2], vals |-> out[3], scale |-> out[5],
+                      dev |-> out[6]]))
   ELSE TRUE
 =============================================================================
